@@ -170,6 +170,13 @@ def upper_match(match):
     return match.group(0).upper()
 
 
+LONE_PERCENT_RE = re.compile(r"%(?![0-9A-Fa-f]{2})")
+
+
+def quote_lone_percents(string):
+    return LONE_PERCENT_RE.sub("%25", string)
+
+
 LOWERCASE_QUOTED_RE = re.compile(r"%(?:[0-9A-F][a-f]|[a-f][0-9A-F]|[a-f]{2})")
 
 
